@@ -255,3 +255,50 @@ Example c11_chunk_merge_nonvacuous :
   merge_sparse (map lookup_to_sparse (chunk_list 5 2 [[1; 4]; []; [0]; [2; 3; 5]; [7]]%nat)) 0
   = ([0; 2; 2; 3; 6; 7]%nat, [1; 4; 0; 2; 3; 5; 7]%nat).
 Proof. vm_compute. reflexivity. Qed.
+
+(* ------------------------------------------------------------------ *)
+(* the p-value-mask route.
+   Stage 1 (create_p_value_mask_file, one pair): a gene has an entry iff its restricted-Holm
+   p-value is below p_th and it is on or above every floor (no margin hypothesis needed: the
+   floors are applied directly); the entry of a strictly passing gene is the distance 0,
+   stored as "strictly valid".  NOTE: no n_cells_min test at this stage, as coded (finding F16). *)
+Theorem c11_mask_file_exact : forall st x es,
+  p_mask_row st x = POk es ->
+  forall g, (exists w, In (g, w) es) <->
+    exists a sc, nth_error (approx_correct_ttest (pi_SP x) (pi_T x) (pi_p x)) g = Some a /\ a < pi_T x /\
+                 nth_error (pi_scores x) g = Some sc /\ above_floors (st_th st) sc.
+Proof. exact p_mask_row_spec. Qed.
+Print Assumptions c11_mask_file_exact.
+
+Theorem c11_mask_file_strict_is_zero : forall st x es g w sc,
+  p_mask_row st x = POk es -> In (g, w) es ->
+  nth_error (pi_scores x) g = Some sc -> strictly_passes (st_th st) sc -> w = 0.
+Proof. exact p_mask_row_strict. Qed.
+Print Assumptions c11_mask_file_strict_is_zero.
+
+(* Stage 2 (_get_validity_mask): soundness — a gene kept for a pair has an entry in the mask
+   file (hence, by c11_mask_file_exact, corrected p < p_th and above the floors) and belongs
+   to the gene list; completeness — a gene of the list whose entry is "strictly valid"
+   (stored value <= 0) is kept, whether or not n_valid genes are reached *)
+Theorem c11_mask_route_sound : forall SD n_valid n_genes entries mask,
+  0 < SD -> match mask with Some m => length m = n_genes | None => True end ->
+  forall m g,
+  get_validity_mask SD n_valid n_genes entries mask = POk m -> nth_error m g = Some true ->
+  (exists v, entry_of entries g = Some v) /\ in_list mask g.
+Proof. exact validity_mask_sound. Qed.
+Print Assumptions c11_mask_route_sound.
+
+Theorem c11_mask_route_complete : forall SD n_valid n_genes entries mask,
+  0 < SD -> match mask with Some m => length m = n_genes | None => True end ->
+  forall m g v,
+  get_validity_mask SD n_valid n_genes entries mask = POk m ->
+  (g < n_genes)%nat -> entry_of entries g = Some v -> v <= 0 -> in_list mask g ->
+  nth_error m g = Some true.
+Proof. exact validity_mask_complete. Qed.
+Print Assumptions c11_mask_route_complete.
+
+Example c11_mask_route_nonvacuous :
+  get_validity_mask 1024 2 4 [(0%nat, -1024); (2%nat, 300); (3%nat, -1024)] (Some [true; true; true; false])
+  = POk [true; false; true; false] /\
+  p_mask_row c11_st c11_x = POk [(0%nat, 0); (2%nat, 670594)].
+Proof. split; vm_compute; reflexivity. Qed.
